@@ -20,14 +20,29 @@ LEVEL_ASSUMPTIONS = [
     "feasibility oracle vlib/oracles/packing.py (self-tested on the "
     "Liu-Teng example)", "icontract postcondition on "
     "ImprovedBottomLeftEncoding{1,2}.decode evaluated on every call"]
-REQUIRED = {"contract_decode_evaluated": 500, "forced_rotations": 20,
+REQUIRED = {"suite_runs": 1, "contract_decode_calls": 1000, "contract_decode_evaluated": 500, "forced_rotations": 20,
             "second_bin": 100, "dtype[int8]": 1, "dtype[int16]": 1,
             "dtype[int32]": 1, "dtype[int64]": 1}
 
 MON: PackingMonitor | None = None
 
 
+# the repository's own tests as a further workload, observed by the
+# process-wide contracts of vlib/monitors (see vlib/suite.py)
+SUITE_TESTS = ['tests/binpacking2d/encodings']
+SUITE_DOMAINS = ['packing']
+
+
 def plan(tier: str, seed: int):
+    rounds = 1 if tier == "quick" else 6
+    return _plan(tier, seed) + [
+        {"name": f"suite{i}", "engine": "jit", "timeout": 3000,
+         "args": {"mode": "suite", "tests": SUITE_TESTS,
+                  "domains": SUITE_DOMAINS, "rounds": rounds}}
+        for i in range(1 if tier == "quick" else 4)]
+
+
+def _plan(tier: str, seed: int):
     if tier == "quick":
         return [{"name": f"s{i}", "engine": "jit", "args": {"n": 400},
                  "timeout": 900} for i in range(4)]
